@@ -213,6 +213,11 @@ def genOps2 : List (String × R String) := [
   ("g:tr_tweak", do
       let pub ← bytes; let s ← scripts
       pure (ansG toString (Gen.calculate_tweak Crypto.sha256 Gen.OP_CODES pub (pyScripts s)))),
+  ("g:tr_addr_obj", do
+      -- PublicKey.get_taproot_address(scripts): the P2TR object (version, program, parity flag)
+      let pub ← bytes; let s ← scripts
+      pure (ansG (fun (r : (Int × Bytes) × Bool) => s!"{r.1.1} {hex r.1.2} {if r.2 then 1 else 0}")
+        (Gen.pubkey_get_taproot_address "bc".toList Crypto.sha256 Gen.OP_CODES pub (pyScripts s)))),
   ("g:tr_addr", do
       let pub ← bytes; let s ← scripts
       pure (ansG (fun (q : Bytes × Bool) => s!"{hex q.1} {if q.2 then 1 else 0}")
